@@ -967,19 +967,20 @@ Section Knot.
                   | None => Err EValueError
                   | Some mcid =>
                     (* v20: the precision of `created` is switched per instance *)
+                    let c_ms :=
+                        {| cid := cid c; cver := cver c; ctype := ctype c; cfamily := cfamily c;
+                           cslots := map (fun s => if ustr_eqb (sname s) (u "created")
+                                                   then {| sname := sname s; skind := KTime PMilli CExact; sreq := sreq s; sdef := sdef s |}
+                                                   else s) (cslots c);
+                           ccons := ccons c; cinit := cinit c; cidcontrib := cidcontrib c;
+                           cserialize_tlp := cserialize_tlp c |} in
                     let c' :=
                         match vv, alookup (u "created") kwargs0 with
                         | V20, Some cr =>
                           let ms := ustr_eqb t (u "tlp") ||
                                     match cr with JStr s => existsb (N.eqb 46) s | _ => false end in
-                          if ms then
-                            {| cid := cid c; cver := cver c; ctype := ctype c; cfamily := cfamily c;
-                               cslots := map (fun s => if ustr_eqb (sname s) (u "created")
-                                                       then {| sname := sname s; skind := KTime PMilli CExact; sreq := sreq s; sdef := sdef s |}
-                                                       else s) (cslots c);
-                               ccons := ccons c; cinit := cinit c; cidcontrib := cidcontrib c;
-                               cserialize_tlp := cserialize_tlp c |}
-                          else c
+                          if ms then c_ms else c
+                        | V20, None => if vr_md20_default_ms vr then c_ms else c
                         | _, _ => c
                         end in
                     let unmodelled_created :=
